@@ -208,7 +208,16 @@ func runCfg(n *node, f *frame, funcNode, callNode *node) {
 		f.mutex.Lock()
 		f.recovered = recover()
 		for _, val := range f.deferred {
-			val[0].Call(val[1:])
+			func() {
+				// A panic raised by a deferred call replaces the one in flight,
+				// and the remaining deferred calls still run.
+				defer func() {
+					if r := recover(); r != nil {
+						f.recovered = r
+					}
+				}()
+				val[0].Call(val[1:])
+			}()
 		}
 		if f.recovered != nil {
 			oNode := originalExecNode(n, exec)
